@@ -68,6 +68,12 @@ def generate(g, tier):
         exp = simulate(edges, None, nmax)
         cases.append(dict(op='compile_file', file=names[0], files=build_files(None, edges, nmax, names),
                           meta=dict(family='exhaustive', exp=list(exp), names=names)))
+        if mask % 7 == 3:
+            # the same graph with the entry path spelled another way: relative to the working directory, or through a folder
+            # and back out of it — the files are the same files
+            for sp in ('relative', 'relative-leaf', 'dotdot'):
+                cases.append(dict(op='compile_file', entry=sp, file=names[0], files=build_files(None, edges, nmax, names),
+                                  meta=dict(family='entry-' + sp, exp=list(exp), names=names, nocorr=True)))
     # sampled richer graphs
     for _ in range(count(tier, 300, 3000)):
         n = r.randint(2, 7)
@@ -151,8 +157,10 @@ def oracle(cases, results):
             else:
                 want = [m['names'][k] for k in exp[1][:-1]] if exp[1] is not None else m.get('chainfiles')
                 got = []
+                import os.path
                 for f in (r.get('trace') or []):
-                    if not got or got[-1] != f[0]: got.append(f[0])
+                    fn = os.path.normpath(f[0]) if f[0] else f[0]
+                    if not got or got[-1] != fn: got.append(fn)
                 if want is not None and got != want:
                     fs.append(fail(i, f'the error does not show the import chain: expected files {want} got {got}', f'{fam}:chain'))
     return fs
